@@ -146,9 +146,31 @@ def build_structured(env, reps):
             cls = "structured:" + name
             s.call("setup_s", mode=0, pkr=pk, info="-", rng=rngE.hex() + "aa" * 8, out="S", role="pkR", cls=cls)
             s.call("encap", pkr=pk, rng=rngE.hex() + "aa" * 8, role="pkR", cls=cls)
+        # keys with a tiny u-coordinate (all bytes zero but the first) kept at every address modulo 8: a zero test that
+        # looks at the key through aligned wide loads and forgets the unaligned head calls them "all zero"
+        for u in (2, 3, 4, 9, 0x80, 0xff):
+            tiny = bytes([u]) + bytes(31)
+            tail = bytes(31) + bytes([u & 0x7f or 1])
+            for off in range(1, 8):
+                for pt in (tiny, tail):
+                    cls = "tiny_key_at_offset"
+                    s.call("setup_s", mode=0, pkr=pt, info="-", rng=g.rbytes(32), out="ST", role="pkR", cls=cls, off=off)
+                    s.call("encap", pkr=pt, rng=g.rbytes(32), role="pkR", cls=cls, off=off)
+                    s.call("setup_r", mode=0, skr="$kR.sk", enc=pt, info="-", out="RT", role="enc", cls=cls, off=off)
+                    s.call("decap", skr="$kR.sk", enc=pt, role="enc", cls=cls, off=off)
+        # the clamped scalar 5*l - 1 acts as -1 on the prime-order subgroup: its public key is the base point u = 9 and
+        # DH(k, P) has the same u-coordinate as P.  A check "result must differ from the peer's key" refuses every honest peer.
+        cls = "special_scalar:minus_one"
+        s.call("sk_to_pk", sk=SPECIAL_MINUS_ONE, out="kM")
+        s.call("setup_s", mode=0, pkr="$kM.pk", info="-", rng=g.rbytes(32), out="SM", role="pkR", cls=cls)
+        s.call("setup_r", mode=0, skr=SPECIAL_MINUS_ONE, enc="$SM.enc", info="-", out="RM", role="enc", cls=cls)
+        s.call("decap", skr=SPECIAL_MINUS_ONE, enc="$SM.enc", role="enc", cls=cls)
+        s.call("encap", pkr="$kR.pk", sks=SPECIAL_MINUS_ONE, pks="$kM.pk", rng=g.rbytes(32), out="am", role="pkR", cls=cls)
+        s.call("decap", skr="$kR.sk", enc="$am.enc", pks="$kM.pk", role="pkS", cls=cls)
     return cw
 
 
+SPECIAL_MINUS_ONE = "a023cdd083ef5bb82f10d62e59e15a6800000000000000000000000000000050"
 MONITORS = {"smallorder": monitor, "structured": monitor}
 
 
